@@ -5,6 +5,7 @@ Three areas, one Lean model + driver sub-command + C++ harness each:
   hashset    con::set / con::map        lean/MorfuseModel/HashSet/*    harness/hashset.cpp
   str        mfuse::str (copy-on-write) lean/MorfuseModel/Str/*        harness/strh.cpp
 """
+import binascii
 import glob
 import itertools
 import json
@@ -518,6 +519,258 @@ def check_hashset(ctx, quick):
     return d
 
 
+# --------------------------------------------------------------------------------------------
+# Str
+
+def hx(b):
+    return binascii.hexlify(b).decode() if b else "-"
+
+
+def unhx(t):
+    return b"" if t == "-" else binascii.unhexlify(t)
+
+
+def sc(c):
+    return c if c < 128 else c - 256
+
+
+def up(c):
+    return c - 32 if 97 <= c <= 122 else c
+
+
+def sgn(a, b):
+    return "-1" if a < b else ("1" if a > b else "0")
+
+
+class StrMonitor:
+    """C18 for str as a predicate on ONE side's trace: one independent Python bytes object per
+    handle (so any modification seen through another handle is a content mismatch); compared:
+    contents, length(), return values of the comparisons, and the sharing bookkeeping: strings in
+    one block show the same text, refcount + 1 = number of handles on the block, live blocks =
+    number of distinct blocks in use.  The alloced field (capacity policy) is not compared."""
+    SPACE = b" \t\n\r\x0b\x0c"
+
+    def __init__(self):
+        self.bad = None
+        self.S = [b""] * 4
+
+    def fail(self, i, kind, msg):
+        if self.bad is None:
+            self.bad = (i, kind, msg)
+
+    def feed(self, i, line, out):
+        t = line.split()
+        if not t or out in ("bad-op", "ub"):
+            return
+        o = out.split(" | ")
+        if not out.startswith("ok ") or len(o) != 6:
+            self.fail(i, "unexpected-answer", out[:80])
+            return
+        ret = o[0][3:]
+        op = t[0]
+        S = self.S
+        want = "-"
+        if op == "reset":
+            self.S = S = [b""] * 4
+        elif op == "ctor":
+            S[int(t[1])] = unhx(t[2])
+        elif op == "ctorn":
+            S[int(t[1])] = unhx(t[2])[:int(t[3])]
+        elif op == "ctorc":
+            S[int(t[1])] = bytes([int(t[2])])
+        elif op == "ctorsub":
+            src = S[int(t[2])]
+            a, b = min(int(t[3]), len(src)), min(int(t[4]), len(src))
+            S[int(t[1])] = src[a:b] if b > a else b""
+        elif op in ("cctor", "copy"):
+            S[int(t[1])] = S[int(t[2])]
+        elif op == "move":
+            v = S[int(t[2])]
+            S[int(t[2])] = b""
+            S[int(t[1])] = v if t[1] != t[2] else b""
+        elif op == "assign":
+            S[int(t[1])] = unhx(t[2])
+        elif op == "assignn":
+            S[int(t[1])] = unhx(t[2])[:int(t[3])]
+        elif op == "app":
+            S[int(t[1])] = S[int(t[1])] + S[int(t[2])]
+        elif op == "apps":
+            S[int(t[1])] = S[int(t[1])] + unhx(t[2])
+        elif op == "appc":
+            S[int(t[1])] = S[int(t[1])] + bytes([int(t[2])])
+        elif op == "plus":
+            S[int(t[1])] = S[int(t[2])] + S[int(t[3])]
+        elif op == "setc":
+            h, k = int(t[1]), int(t[2])
+            if k < len(S[h]):
+                S[h] = S[h][:k] + bytes([int(t[3])]) + S[h][k + 1:]
+        elif op == "cap":
+            S[int(t[1])] = S[int(t[1])][:int(t[2])]
+        elif op == "minus":
+            h, k = int(t[1]), int(t[2])
+            S[h] = S[h][:max(0, len(S[h]) - k)]
+        elif op == "lower":
+            S[int(t[1])] = S[int(t[1])].lower()
+        elif op == "upper":
+            S[int(t[1])] = S[int(t[1])].upper()
+        elif op == "strip":
+            S[int(t[1])] = S[int(t[1])].strip(self.SPACE)
+        elif op == "clear":
+            S[int(t[1])] = b""
+        elif op == "reserve":
+            pass
+        elif op == "getc":
+            h, k = int(t[1]), int(t[2])
+            want = str(S[h][k]) if k < len(S[h]) else "0"
+        elif op == "eq":
+            want = "true" if S[int(t[1])] == S[int(t[2])] else "false"
+        elif op == "eqs":
+            want = "true" if S[int(t[1])] == unhx(t[2]) else "false"
+        elif op in ("icmp", "icmps"):
+            a = S[int(t[1])]
+            b = S[int(t[2])] if op == "icmp" else unhx(t[2])
+            want = sgn([sc(up(c)) for c in a] + [0], [sc(up(c)) for c in b] + [0])
+        elif op in ("cmpn", "icmpn"):
+            f = (lambda c: sc(up(c))) if op == "icmpn" else sc
+            n = int(t[3])
+            want = sgn(([f(c) for c in S[int(t[1])]] + [0])[:n], ([f(c) for c in S[int(t[2])]] + [0])[:n])
+        if ret != want:
+            self.fail(i, "return-value", "%s returned `%s`, abstract strings give `%s`" % (op, ret, want))
+        groups = {}
+        for h in range(4):
+            f = o[1 + h].split(" ")
+            if len(f) != 5:
+                self.fail(i, "observation", "string %d: %s" % (h, o[1 + h][:80]))
+                return
+            txt, ln, grp, rc = f[0], int(f[1]), f[2], f[3]
+            try:
+                got = unhx(txt)
+            except (binascii.Error, ValueError):
+                self.fail(i, "observation", "string %d: %s" % (h, o[1 + h][:80]))
+                return
+            if got != S[h]:
+                others = [g for g in range(4) if g != h and o[1 + g].split(" ")[2] == grp and grp != "n"]
+                kind = "isolation" if others else "contents"
+                self.fail(i, kind, "string %d reads %r, an abstract string holds %r%s" % (
+                    h, got, S[h], " (shares its block with %s)" % others if others else ""))
+            if ln != len(got):
+                self.fail(i, "length", "string %d: length() = %d but c_str() has %d characters" % (h, ln, len(got)))
+            if grp != "n":
+                groups.setdefault(grp, []).append((h, int(rc)))
+        for grp, hs in groups.items():
+            for h, rc in hs:
+                if rc + 1 != len(hs):
+                    self.fail(i, "refcount", "block %s: refcount %d but %d strings use it" % (grp, rc, len(hs)))
+        blocks = int(o[5].split("=")[1])
+        if blocks != len(groups):
+            self.fail(i, "blocks", "%d live blocks, %d in use" % (blocks, len(groups)))
+
+
+TEXTS = [b"", b"a", b"Ab", b"ab", b"hello", b"HELLO", b"hellp", b"  hi  ", b"\tx y\n", b" ", b"zz top ",
+         b"\xe9t\xe9", b"\xff", b"a/b.c", b"0123456789abcdefghijklmnopqrstuvwxyzABCDEFGH"]
+
+
+def gen_str(rng, n):
+    lines = ["reset"]
+    H = lambda: rng.randint(0, 3)
+    T = lambda: hx(rng.choice(TEXTS))
+    C = lambda: rng.choice([65, 97, 122, 32, 9, 120, 81, 200, 255, 1])
+    N = lambda: rng.choice([0, 0, 1, 1, 2, 3, 4, 5, 6, 7, 10, 40, 50, rng.randint(0, 60)])
+    for _ in range(n):
+        r = rng.random()
+        if r < 0.03:
+            lines.append(rng.choice(["ctor 4 61", "ctor 0 0", "ctor 0 6100", "appc 0 0", "appc 0 256", "setc 0 1 0", "frob", "copy 0",
+                                     "ctorn 0 6162 3", "assignn 1 61 2", "cap 0 x", "ctor 0 6"]))
+        elif r < 0.11:
+            lines.append("ctor %d %s" % (H(), T()))
+        elif r < 0.13:
+            t = rng.choice(TEXTS); lines.append("ctorn %d %s %d" % (H(), hx(t), rng.randint(0, len(t))))
+        elif r < 0.15:
+            lines.append("ctorc %d %d" % (H(), C()))
+        elif r < 0.19:
+            lines.append("ctorsub %d %d %d %d" % (H(), H(), N(), N()))
+        elif r < 0.25:
+            lines.append("cctor %d %d" % (H(), H()))
+        elif r < 0.35:
+            lines.append("copy %d %d" % (H(), H()))
+        elif r < 0.38:
+            lines.append("move %d %d" % (H(), H()))
+        elif r < 0.42:
+            lines.append("assign %d %s" % (H(), T()))
+        elif r < 0.45:
+            t = rng.choice(TEXTS); lines.append("assignn %d %s %d" % (H(), hx(t), rng.randint(0, len(t))))
+        elif r < 0.51:
+            lines.append("app %d %d" % (H(), H()))
+        elif r < 0.55:
+            lines.append("apps %d %s" % (H(), T()))
+        elif r < 0.60:
+            lines.append("appc %d %d" % (H(), C()))
+        elif r < 0.63:
+            lines.append("plus %d %d %d" % (H(), H(), H()))
+        elif r < 0.68:
+            lines.append("setc %d %d %d" % (H(), N(), C()))
+        elif r < 0.73:
+            lines.append("cap %d %d" % (H(), N()))
+        elif r < 0.78:
+            lines.append("minus %d %d" % (H(), N()))
+        elif r < 0.82:
+            lines.append("%s %d" % (rng.choice(["lower", "upper"]), H()))
+        elif r < 0.86:
+            lines.append("strip %d" % H())
+        elif r < 0.89:
+            lines.append("reserve %d %d" % (H(), N()))
+        elif r < 0.91:
+            lines.append("clear %d" % H())
+        elif r < 0.93:
+            lines.append("getc %d %d" % (H(), N()))
+        elif r < 0.95:
+            lines.append("eq %d %d" % (H(), H()))
+        elif r < 0.96:
+            lines.append("eqs %d %s" % (H(), T()))
+        elif r < 0.97:
+            lines.append("icmp %d %d" % (H(), H()))
+        elif r < 0.98:
+            lines.append("cmpn %d %d %d" % (H(), H(), N()))
+        elif r < 0.99:
+            lines.append("icmpn %d %d %d" % (H(), H(), N()))
+        else:
+            lines.append("icmps %d %s" % (H(), T()))
+    return lines
+
+
+def exh_str(maxlen):
+    """every history of the given length over a small alphabet on two strings (correspondence input)"""
+    alphabet = ["ctor 0 2061", "copy 1 0", "appc 1 120", "cap 1 1", "minus 0 1", "app 0 1", "app 1 1", "setc 1 0 81",
+                "strip 0", "reserve 1 9", "upper 0", "assignn 1 7a 1"]
+    return [["reset"] + list(c) for c in itertools.product(alphabet, repeat=maxlen)]
+
+
+def build_str(ctx):
+    return common.build_light(ctx, "h_str", ["strh.cpp"], ["src/Common/str.cpp", "src/Common/MEM/Memory.cpp"],
+                              extra=["-ffunction-sections", "-Wl,--gc-sections"])
+
+
+def check_str(ctx, quick):
+    exe = build_str(ctx)
+    d = PhiDiff(ctx, Prop(StrMonitor), exe, "str")
+    bad = d.run_batch(corpus_cases("str"))
+    rng = ctx.rng("str")
+    ncases, length = (300, 150) if quick else (4000, 600)
+
+    def rnd():
+        for i in range(ncases):
+            yield ("str:random:%d" % i, gen_str(rng, rng.choice([8, 30, length])))
+    bad += run_area(ctx, d, "str", rnd(), 100)
+    exh = exh_str(3 if quick else 5)
+    ctx.stats["str_exhaustive_histories"] = len(exh)
+    bad += run_area(ctx, d, "str", (("str:exh:%d" % i, c) for i, c in enumerate(exh)), 5000)
+    if not quick:
+        bad += d.run_batch([("str:long:%d" % i, gen_str(rng, 10000)) for i in range(6)])
+    ctx.oblige("correspondence harness/strh.cpp == Str model on %d histories" % d.cases, bad == 0,
+               "%d differing cases" % bad, reported=True)
+    return d
+
+
 def run_area(ctx, d, area, cases_iter, batch_size):
     bad = 0
     batch = []
@@ -564,7 +817,7 @@ def check(ctx):
         ctx.notes.append("lake build failed; driver rebuilt alone to search for a failing input")
     elif not quick:
         common.leanchecker(ctx, PROPS_MODULE)
-    ds = {"container": check_container(ctx, quick), "hashset": check_hashset(ctx, quick)}
+    ds = {"container": check_container(ctx, quick), "hashset": check_hashset(ctx, quick), "str": check_str(ctx, quick)}
     ctx.samples = [gen_container(ctx.rng("sample"), 10, True)]
     cov = {
         "evaluations": sum(d.cases for d in ds.values()),
@@ -595,6 +848,9 @@ def replay(ctx, obj):
     elif area == "hashset":
         exe = build_hashset(ctx)
         prop = Prop(HashSetMonitor)
+    elif area == "str":
+        exe = build_str(ctx)
+        prop = Prop(StrMonitor)
     else:
         raise common.CheckError("unknown area " + area)
     d = PhiDiff(ctx, prop, exe, area)
